@@ -709,3 +709,7 @@ add('c11-capacity-error-rescued', ['C11', 'C03', 'C19'], 'fire', 'Container.fill
     "result = self._add(solvent, f'{required_quantity} {quantity_unit}')",
     "try:\n        result = self._add(solvent, f'{required_quantity} {quantity_unit}')\n    except ValueError:\n        result = self._add(solvent, '0 L')",
     'the refusal of the add is converted into a result')
+add('c15-answers-kept-through-vars', ['C15', 'C09'], 'fire', 'Recipe.get_amount_remaining',
+    "steps = self.steps[self.stages[timeframe]]",
+    "answers = vars(self).setdefault('_answers', {})\n    steps = self.steps[self.stages[timeframe]]",
+    'vars(self) is the instance dictionary: a cache addressed by name')
